@@ -191,6 +191,10 @@ def array_groups():
     g('release', ['C14'], 'h_release', 'cstl_array_release', 'release of an internal buffer: NULL, nothing changes', solver='kissat')
     g('release.external', ['C14'], 'h_release', 'cstl_array_release', 'release of an external buffer: handed back only to the sole user', defines=['-DVF_A_EXTERNAL'], timeout=800, solver='kissat')
     g('set', ['C14', 'C16'], 'h_set', 'cstl_array_set', 'set wraps an external buffer or leaves the object empty')
+    for fam, fd, ftxt in (('', [], 'view of an internal buffer'), ('.external', ['-DVF_A_EXTERNAL'], 'view of an external buffer'), ('.empty', ['-DVF_A_EMPTY'], 'empty object')):
+        g('reset' + fam, ['C14'], 'h_reset', 'cstl_array_reset', 'reset lets go of exactly one owner count: allocation released exactly when this was the last object referring to it, object left empty [%s]' % ftxt,
+          defines=['-DVF_G_reset'] + fd, solver='kissat')
+        g('data' + fam, ['C14'], 'h_data', 'cstl_array_data_const', 'data: the start of the underlying buffer, NULL for an empty object [%s]' % ftxt, defines=['-DVF_G_reset'] + fd)
     names = ['alloc', 'set', 'release', 'data_const', 'at_const', 'slice', 'unslice', 'reset']
     for i, n in enumerate(names, 1):
         G.append(Group('array.stray.' + n, ['C20'], 'P', S, 'h_stray', enforce='cstl_array_' + n, sources=src, solver='kissat',
